@@ -268,6 +268,7 @@ package otr3
 //@   ensures [C16.frag.sticky] old(c.version) != nil ==> c.version == old(c.version)
 //@   ensures [C16.key.nonnil.frag] old(c.ourCurrentKey) != nil ==> c.ourCurrentKey != nil
 //@   ensures [C19.frag.noinject] !(result0 == beforeCtx) ==> c.injections.messages === old(c.injections.messages)
+//@   ensures [C14.frag.v3.tags,C15.frag.v3.tags] (typeis(old(c.version), otrV3) && !(result0 == beforeCtx)) ==> c.theirInstanceTag >= 256
 //@   ensures nonglobal(result0.frag)
 
 //@ func fragmentsFinished
@@ -389,7 +390,7 @@ package otr3
 //@   requires k != nil
 //@   mayglobal randomness
 //@   modifies k.ourPreviousDHKeys.*, k.ourCurrentDHKeys.*, k.ourKeyID, val(k.ourPreviousDHKeys.pub), elems(k.ourPreviousDHKeys.priv)
-//@   ensures [C13.rand.rotate,C06.rotate.fail,C08.rotate.fail] result != nil ==> (k.ourKeyID == old(k.ourKeyID) && k.ourCurrentDHKeys.pub == old(k.ourCurrentDHKeys.pub) && k.ourCurrentDHKeys.priv === old(k.ourCurrentDHKeys.priv) && k.ourPreviousDHKeys.pub == old(k.ourPreviousDHKeys.pub) && k.ourPreviousDHKeys.priv === old(k.ourPreviousDHKeys.priv))
+//@   ensures [C13.rand.rotate,C06.rotate.fail,C08.rotate.fail,C10.rotate.fail,C04.rotate.fail] result != nil ==> (k.ourKeyID == old(k.ourKeyID) && k.ourCurrentDHKeys.pub == old(k.ourCurrentDHKeys.pub) && k.ourCurrentDHKeys.priv === old(k.ourCurrentDHKeys.priv) && k.ourPreviousDHKeys.pub == old(k.ourPreviousDHKeys.pub) && k.ourPreviousDHKeys.priv === old(k.ourPreviousDHKeys.priv))
 //@   ensures [C04.rot.our.new] result == nil ==> (k.ourKeyID == old(k.ourKeyID) + 1 && k.ourPreviousDHKeys.priv === old(k.ourCurrentDHKeys.priv) && k.ourPreviousDHKeys.pub == old(k.ourCurrentDHKeys.pub) && fresh(k.ourCurrentDHKeys.priv) && len(k.ourCurrentDHKeys.priv) == 40 && k.ourCurrentDHKeys.pub != nil && fresh(k.ourCurrentDHKeys.pub))
 //@   ensures [C08.rotate.wipe] result == nil ==> (zeroed(old(k.ourPreviousDHKeys.priv)) && (old(k.ourPreviousDHKeys.pub) != nil ==> val(old(k.ourPreviousDHKeys.pub)) == 0))
 //@   ensures [C10.rotate.pub] result == nil ==> val(k.ourCurrentDHKeys.pub) == powmod(2, nat(bytes(k.ourCurrentDHKeys.priv)), val(pct))
@@ -631,6 +632,7 @@ package otr3
 //@   ensures [C10.ctr.start,C04.send.ctr] result2 == nil ==> be64arr(result0.topHalfCtr) != 0
 //@   ensures [C09.disclose.next,C19.oldmac.flush] result2 == nil ==> (result0.oldMACKeys === old(c.keys.oldMACKeys) && len(c.keys.oldMACKeys) == 0)
 //@   ensures [C18.last.flag] result2 == nil ==> c.resend.mayRetransmit == noRetransmit
+//@   ensures [C04.send.derive,C02.send.derive] result2 == nil ==> len(c.keys.macKeyHistory.items) == len(old(c.keys.macKeyHistory.items)) + 1
 //@   ensures [C03.ctr.advance,C04.send.ctr.advance,C10.ctr.unique] result2 == nil ==> (forall i in 0..len(old(c.keys.counterHistory.counters)) :: (old(pairAt(c.keys.counterHistory, i, c.keys.ourKeyID - 1, c.keys.theirKeyID)) && old(c.keys.counterHistory.counters[i].ourCounter) < 9223372036854775807) ==> c.keys.counterHistory.counters[i].ourCounter > old(c.keys.counterHistory.counters[i].ourCounter))
 //@   ensures result2 == nil ==> (result0.y != nil && len(result0.authenticator) == 20)
 
@@ -772,7 +774,7 @@ package otr3
 //@   modifies c.ake.theirPublicValue
 //@   ensures [C01.dhkey.range] (err == nil && old(c.ake.theirPublicValue) == nil) ==> (c.ake.theirPublicValue != nil && inGroup(c.ake.theirPublicValue))
 //@   ensures [C06.dhkey.reject] err != nil ==> c.ake.theirPublicValue == old(c.ake.theirPublicValue)
-//@   ensures [C07.dhkey.same] old(c.ake.theirPublicValue) != nil ==> c.ake.theirPublicValue == old(c.ake.theirPublicValue)
+//@   ensures [C07.dhkey.same,C01.dhkey.same,C06.dhkey.same] old(c.ake.theirPublicValue) != nil ==> c.ake.theirPublicValue == old(c.ake.theirPublicValue)
 //@   ensures [C07.dhkey.notsame] old(c.ake.theirPublicValue) == nil ==> !isSame
 
 //@ func (*Conversation).processEncryptedSig
@@ -1416,7 +1418,10 @@ package otr3
 //@   requires [C13.tlv.wellformed] tlvsOK(tlvs)
 //@   requires [C12.tlv.smp.pre.version] c.version != nil
 //@   requires [C12.tlv.smp.pre.enc] encOK(c)
-//@   requires [C12.tlv.smp.pre] smpShape(c)
+//@   requires [C12.tlv.smp.pre.e2] isExp2(c.smp.state) ==> (s1OK(c.smp.s1) && c.smp.secret != nil)
+//@   requires [C12.tlv.smp.pre.e3] isExp3(c.smp.state) ==> (s2Shape(c.smp.s2) && c.smp.secret != nil)
+//@   requires [C12.tlv.smp.pre.e4] isExp4(c.smp.state) ==> (s1OK(c.smp.s1) && s3OK(c.smp.s3))
+//@   requires [C12.tlv.smp.pre.w] isWaitSecret(c.smp.state) ==> m1OK(waitMsg(c.smp.state))
 //@   requires [C12.tlv.smp.pre.vals] smpVals(c)
 //@   ensures [C12.tlv.smp.inv] smpInv(c)
 //@   ensures [C07.tlv.inv] akeInv(c)
@@ -1479,6 +1484,7 @@ package otr3
 
 //@ func (*Conversation).notifyDataMessageError
 //@   requires c != nil
+//@   preserves [C06.notify.frame,C18.notify.frame] c.resend.mayRetransmit, c.resend.messages.m, c.msgState, c.keys.ourKeyID, c.keys.theirKeyID, c.smp.state
 //@   modifies msglog(c), c.injections.messages, elems(c.injections.messages)
 
 //@ func (*Conversation).checkPlaintextPolicies
@@ -1589,6 +1595,13 @@ package otr3
 //@   requires convOK(c)
 //@   modifies anything
 //@   modifies msglog(c), akeWiped(c.ake), akeKeysWiped(c.ake), kmcWiped(addr(c.ake.keys)), keysWiped(addr(c.ake.keys))
+//@ func (*Conversation).startAKEFromWhitespaceTag
+//@   requires c != nil && keysNonNil(c)
+//@   modifies anything
+//@   modifies msglog(c), akeWiped(c.ake), akeKeysWiped(c.ake), kmcWiped(addr(c.ake.keys)), keysWiped(addr(c.ake.keys))
+//@   preserves [C14.ctx.frame.wstag] c.fragmentationContext.currentIndex, c.fragmentationContext.currentLen, c.fragmentationContext.frag, c.msgState, c.theirKey, c.Policies, c.keys.ourKeyID, c.keys.theirKeyID
+//@   ensures [C07.wstag.start,C16.wstag.start] err == nil ==> (c.ake != nil && isAwDHKey(c.ake.state) && c.version != nil)
+//@   ensures [C16.wstag.sticky] old(c.version) != nil ==> c.version == old(c.version)
 //@ func (*Conversation).receiveTaggedPlaintext
 //@   ensures [C13.recv.version.tagged] (err == nil && len(toSend) > 0) ==> c.version != nil
 //@   preserves [C14.ctx.frame.receiveTaggedPlaintext] c.fragmentationContext.currentIndex, c.fragmentationContext.currentLen, c.fragmentationContext.frag
